@@ -25,7 +25,7 @@ LEVEL_NOTE = ('Rows with tied chi^2 may come in any order; resolved-model remova
 RULE = ("cases: (mode, load variant, n_models, package permutation); executions: Fitter.fit on 7 sources built to produce ties/1e30/inf, one evaluation per row; "
         "non-trivial = distinct (case, source) whose result has >= 2 rows")
 ASSUMPTIONS = ["finite value alphabets", "ties may be ordered either way"]
-REQUIRED_CLASSES = ['grid-of-hundreds-of-models', 'tied-chi2-duplicates', 'chi2>=1e30', 'tied-at-1e30', 'chi2==2e30', 'resolved-removal-moves-best-distance', 'n_models==1', 'n_models==8', 'permuted-package',
+REQUIRED_CLASSES = ['ninety-trial-distances', 'grid-of-hundreds-of-models', 'tied-chi2-duplicates', 'chi2>=1e30', 'tied-at-1e30', 'chi2==2e30', 'resolved-removal-moves-best-distance', 'n_models==1', 'n_models==8', 'permuted-package',
                     'mode-2d', 'mode-3d', 'float32-path', 'dead-model', 'near-tied-chi2']
 TIMEOUT = {'quick': 300, 'thorough': 1200}
 VARIANTS = [('v1', False), ('v2', True), ('v2', False)]
@@ -68,6 +68,10 @@ def setup(tier, seed):
     for mode in ('2d', '3d'):
         for iv in ((0, 1) if tier == 'quick' else (0, 1, 2)):
             out.append({'mode': mode, 'variant': iv, 'n': nbig, 'perm': [(i * 7919 + 5) % nbig for i in range(nbig)]})
+    # scale: 90 trial distances (beyond 64) in the distance-dependent mode
+    for iv in ((0, 1) if tier == 'quick' else (0, 1, 2)):
+        for p in ([4, 2, 0, 3, 1], [0, 1, 2, 3, 4]):
+            out.append({'mode': '3d', 'variant': iv, 'n': 5, 'perm': p, 'fine': True})
     return {'tier': tier, 'seed': seed, 'cases': out}
 
 
@@ -131,20 +135,23 @@ def run_case(ctx, case, rec, d):
             tphys[4] = tphys[0]
         # make the last physical model strongly extended (surface brightness rising outwards: resolved at every trial distance)
         tphys[n - 1] = tphys[n - 1][:, :1] * np.array([1.0, 1e3, 1e6, 1e9])[None, :]
-        spec = {'fmt': fmt, 'names': names, 'bands': BANDS, 'apertures': ap, 'tables': tphys[perm], 'logd_step': 0.15}
+        step = 0.02 if case.get('fine') else 0.15
+        spec = {'fmt': fmt, 'names': names, 'bands': BANDS, 'apertures': ap, 'tables': tphys[perm], 'logd_step': step}
         md = fc.build_package(d, 'pkg', spec)
-        dmin, dmax = 0.4, 6.0
+        dmin, dmax = (0.2, 12.0) if case.get('fine') else (0.4, 6.0)
+        if case.get('fine'):
+            rec.cls('ninety-trial-distances')
         dunit = ['kpc', 'pc', 'cm'][case['variant']]
         fitters = [(fc.make_fitter(md, BANDS, 'power', (avlo, avhi), distance_range_kpc=(dmin, dmax), memmap=memmap, dunit=dunit), False),
                    (fc.make_fitter(md, BANDS, 'power', (avlo, avhi), distance_range_kpc=(dmin, dmax), memmap=memmap, remove_resolved=True, dunit=dunit), True)]
-        prob, grid = fc.judge_grid(fitters[0][0], dmin, dmax, 0.15)
+        prob, grid = fc.judge_grid(fitters[0][0], dmin, dmax, step)
         if prob:
             rec.violation('grid|%s' % prob.split(':')[0], {}, {'problem': prob})
             return
         logm3 = fitref.model_logflux_3d([tphys[perm][:, b, :] for b in range(len(BANDS))], [ap] * len(BANDS), [1.0] * len(BANDS), grid)
         logd = np.log10(grid)
         base = 10 ** (logm3[perm.index(0), len(grid) // 2, :] + 2.0 * k)
-    cfg = (mode, case['variant'], n, tuple(perm))
+    cfg = (mode, case['variant'], n, tuple(perm), bool(case.get('fine')))
     # ---- a model that emits nothing in one band (zero flux): it is outside the strict quantifier (positive fluxes) but must at least
     # end up behind every live model (chi^2 >= 1e30 or undefined), and must not disturb the other rows (differential oracle: the same package without it)
     if n in (3, 5) and mode == '2d':
